@@ -154,10 +154,13 @@ func evalC07(c *Ctx, cs *Case) {
 		walk(root, true)
 	}
 	extChoices := []int{0, 1, 7, 8}
-	targetForms := []int{0, 1, 2, 3} // explicit abs, default via chdir, relative ./target/../target, a target that does not exist yet
+	// explicit abs, default via chdir, relative ./target/../target, a target that does not exist yet,
+	// 4: "../target" from a working directory that was entered through a symbolic link ($PWD names
+	// the link), 5: "<link>/../target" where the link leads to a directory with another parent
+	targetForms := []int{0, 1, 2, 3, 4, 5}
 	if cs.Kind != "one-hostile" || c.Quick() {
 		extChoices = []int{extChoices[r.Intn(3)]}
-		targetForms = []int{r.Intn(4)}
+		targetForms = []int{r.Intn(6)}
 	}
 	for _, rtIdx := range []int{0, 1, 2, 3} {
 		rt := mkdirRoutes[rtIdx]
@@ -177,8 +180,67 @@ func evalC07(c *Ctx, cs *Case) {
 			}
 		}
 	}
+	if cs.Idx%4 == 1 {
+		c07Repoint(c, cs, fkey)
+	}
 	if c.WantSample(cs.Kind) {
 		c.Sample(cs.Kind, map[string]any{"forest": fkey, "doc": doc, "must_reject": anyInvalid})
+	}
+}
+
+// c07Repoint: the target directory of two calls is the same STRING, "<dir>/current", a symbolic
+// link that is moved from release-1 to release-2 between the calls (a deployment switch). The
+// target directory of the second call is what the path names when that call is made: its entries
+// go to release-2, and release-1 keeps what the first call made.
+func c07Repoint(c *Ctx, cs *Case, fkey string) {
+	for _, massive := range []bool{false, true} {
+		for rtIdx := 0; rtIdx < 2; rtIdx++ {
+			rt := mkdirRoutes[rtIdx]
+			j, err := mon.NewJail(c.TmpDir, true)
+			if err != nil {
+				return
+			}
+			deep := filepath.Dir(j.Target)
+			os.Mkdir(filepath.Join(j.Target, "release-1"), 0o755)
+			os.Mkdir(filepath.Join(j.Target, "release-2"), 0o755)
+			cur := filepath.Join(deep, "current")
+			os.Symlink("target/release-1", cur)
+			opts := fsOpts(cur, nil, false, false, massive, false)
+			mode := map[bool]string{true: "massive", false: "simple"}[massive]
+			cs.Entry = rt.Name + "[real," + mode + ",target re-pointed between two calls]"
+			base := runtime.NumGoroutine()
+			t1 := &model.Node{Name: "first-call", Kids: []*model.Node{{Name: "a", Kids: []*model.Node{{Name: "b"}}}}}
+			t2 := &model.Node{Name: "second-call", Kids: []*model.Node{{Name: "x"}, {Name: "y", Kids: []*model.Node{{Name: "z"}}}}}
+			o1 := mkdirCall(rt, gen.Spell(model.Forest{t1}, gen.Canonical), t1, opts)
+			if massive {
+				c07Quiet.Quiesce(base)
+			}
+			mid := j.Snap()
+			os.Remove(cur)
+			os.Symlink("target/release-2", cur)
+			before := j.Snap()
+			o2 := mkdirCall(rt, gen.Spell(model.Forest{t2}, gen.Canonical), t2, fsOpts(cur, nil, false, false, massive, false))
+			if massive {
+				c07Quiet.Quiesce(base)
+			}
+			diff := mon.Diff(before, j.Snap())
+			_, outside := mon.Under(diff, j.Rel+"/release-2")
+			c.Eval(gen.HashString(fkey+"\x00repoint"+cs.Entry), true)
+			c.Count("repointed_target_pairs", 1)
+			det := map[string]any{"first_err": errStr(o1.Err), "second_err": errStr(o2.Err), "diff_of_second_call": diff, "first_call_made": len(mon.Diff(mon.Snapshot{}, mid)) > 0}
+			switch {
+			case o1.Panic != nil || o2.Panic != nil:
+				c.Violation(cs, "panic", "repoint", det)
+			case len(outside) > 0:
+				det["outside"] = outside
+				c.Violation(cs, "escape.outside-target", "re-pointed-link", det)
+			case o1.Err != nil || o2.Err != nil || len(diff) != 4:
+				// second-call, x, y, y/z below release-2 and nothing else
+				c.Violation(cs, "repoint.second-call-incomplete", "", det)
+			}
+			cs.Entry = ""
+			j.Remove()
+		}
 	}
 }
 
@@ -211,6 +273,32 @@ func c07One(c *Ctx, cs *Case, f model.Forest, doc, fkey string, rt fsRoute, dry,
 		}
 		c.Count("targets_with_outward_links", 1)
 	}
+	deep := filepath.Dir(j.Target)
+	// where the entries may ALSO go without leaving "the target directory": for form 5 the path
+	// has two readings (the kernel follows the link before "..", path cleaning removes "link/.."
+	// first); either reading is accepted, as long as ALL of the call's entries follow the same one
+	altRel, altHasRoots := "", false
+	switch tf {
+	case 4:
+		os.Symlink("l2/l3/l4/sentinel-a", filepath.Join(j.Root, "l1", "via-link"))
+	case 5:
+		os.Symlink("..", filepath.Join(deep, "up-link")) // -> l3, whose parent is l2
+		os.Mkdir(filepath.Join(j.Root, "l1", "l2", "target"), 0o755)
+		altRel = "l1/l2/target"
+		// in THAT directory every root exists already: a call that reads the path this way has to
+		// refuse (ErrExistPath) instead of filling the existing directories
+		altHasRoots = true
+		for _, root := range f {
+			if !fsSafeName(root.Name) {
+				altHasRoots = false
+			}
+		}
+		if altHasRoots {
+			for _, root := range f {
+				os.MkdirAll(filepath.Join(j.Root, "l1", "l2", "target", root.Name), 0o755)
+			}
+		}
+	}
 	before := j.Snap()
 	target := j.Target
 	switch tf {
@@ -220,6 +308,10 @@ func c07One(c *Ctx, cs *Case, f model.Forest, doc, fkey string, rt fsRoute, dry,
 		target = "./target/../target"
 	case 3:
 		target = filepath.Join(j.Target, "not", "there-yet") // a rejected tree must not even leave the target behind
+	case 4:
+		target = "../target"
+	case 5:
+		target = deep + "/up-link/../target"
 	}
 	opts := fsOpts(target, ExtLists[ei], ei != 0, dry, massive, false)
 	// a stray output-encoding option (meaningless for mkdir) must not open a way out of the target
@@ -274,6 +366,20 @@ func c07One(c *Ctx, cs *Case, f model.Forest, doc, fkey string, rt fsRoute, dry,
 		withCwd(j.Target, call)
 	case 2:
 		withCwd(filepath.Dir(j.Target), call)
+	case 4:
+		// the shell's view after "cd <jail>/l1/via-link": the kernel's working directory is
+		// l4/sentinel-a, $PWD is the link's path; "../target" is the jail's target for the kernel
+		oldPWD, had := os.LookupEnv("PWD")
+		via := filepath.Join(j.Root, "l1", "via-link")
+		withCwd(via, func() {
+			os.Setenv("PWD", via)
+			call()
+		})
+		if had {
+			os.Setenv("PWD", oldPWD)
+		} else {
+			os.Unsetenv("PWD")
+		}
 	default:
 		// explicit target: the working directory is a sentinel directory INSIDE the jail, so that
 		// anything created relative to the working directory (a dropped target option) is seen
@@ -287,6 +393,17 @@ func c07One(c *Ctx, cs *Case, f model.Forest, doc, fkey string, rt fsRoute, dry,
 	after := j.Snap()
 	diff := mon.Diff(before, after)
 	inside, outside := mon.Under(diff, j.Rel)
+	if altRel != "" && len(outside) > 0 {
+		if in2, out2 := mon.Under(diff, altRel); len(out2) == 0 && !altHasRoots {
+			inside, outside = in2, nil
+			c.Count("form5_targets_resolved_through_the_link", 1)
+		} else if len(out2) == 0 {
+			c.Violation(cs, "exists.filled-an-existing-root", "", map[string]any{"forest": fkey, "doc": doc, "target": deep + "/up-link/../target", "diff": diff,
+				"note": "the entries were made in the directory the kernel resolves the target to, where every root existed before the call"})
+			outside = nil
+		}
+	}
+	c.Count("target_form."+strconv.Itoa(tf), 1)
 	c.Eval(gen.HashString(fkey+"\x00"+cs.Entry+strconv.Itoa(ei*10+tf)), true)
 	c.SetAdd("entries", cs.Entry)
 	det := map[string]any{"forest": fkey, "doc": doc, "ext": ExtLists[ei], "target_form": tf, "diff": diff}
